@@ -399,7 +399,7 @@ func main() {
 		"ecdsaVerifier.Verify", "ecdsaVerifier.VerifyDigest", "encodeECDSASignature", "decodeECDSASignature", "I2OSP", "OS2IP",
 		"rsaSigner.Sign", "rsaSigner.SignDigest", "rsaVerifier.Verify", "rsaVerifier.VerifyDigest",
 		"ed25519Signer.Sign", "ed25519Verifier.Verify", "Countersign0", "VerifyCountersign0",
-		"Algorithm.computeHash", "computeHash", "Sign1", "Sign1Untagged"}
+		"Algorithm.computeHash", "computeHash", "Sign1", "Sign1Untagged", "deterministicBinaryString"}
 	for _, fn := range bodyFns {
 		fd := funcs[fn]
 		var rows []string
@@ -410,9 +410,6 @@ func main() {
 				var sb bytes.Buffer
 				printer.Fprint(&sb, fset, st)
 				row := strings.Join(strings.Fields(sb.String()), " ")
-				if len(row) > 200 {
-					row = row[:200]
-				}
 				rows = append(rows, row)
 			}
 		}
